@@ -27,6 +27,10 @@ THEOREMS = [
     "C20_serialisable_under_cancellation",
     "C20_no_write_inside_open_edit_with_cancel",
     "C20_cancelled_waiter_releasing_lock_loses_update",
+    "C20_source_shape_context_free",
+    "C20_serialisable_with_spawned_tasks",
+    "C20_spawned_task_waits_for_its_creation",
+    "C20_spawned_writer_skipping_lock_loses_update",
 ]
 EXPLANATION = (
     "Lean transition system over the shared state-store model (WfModel/StateStore.lean, section C20): any number of tasks, each "
@@ -46,13 +50,22 @@ EXPLANATION = (
     "C19 sequential machine and therefore the nested-dict spec; no section of another task and no cancellation request to it "
     "writes or takes the lock away while a block is open; the pre-repair SQLite discipline (set_state/clear unlocked) and a lock "
     "that a cancelled waiter gives back (explicit acquire/finally-release) provably lose an update on 3- and 6-action schedules. "
+    "Tasks created by tasks (SpSys): `sp c = (p, k)` — task c is created (create_task) by chunk k of the edit_state body of "
+    "task p, inside the open block, with a copy of p's context; it can neither run nor be cancelled before; from then on it is "
+    "an ordinary task (the store modules hold no per-task/per-context state: C20_source_shape_context_free, from the source). "
+    "C20_serialisable_with_spawned_tasks: every schedule after which all created tasks have ended ends in the serial run of the "
+    "tasks that took effect, in an order that lists every creator's block before the tasks it created (any spawn shape, both "
+    "backends, with cancellations); a store whose set() skips the lock for such a task provably loses the write. "
     "Tie: lock flags from source (C20_source_shape, C20_source_shape_scoped_lock break when a writer leaves the lock or the lock "
     "is used other than through `async with`); real InMemoryStateStore and SqliteStateStore are driven by real asyncio Tasks "
     "under a scripted scheduler, one await-free section or one Task.cancel() per action, over all interleavings of 2-3 "
-    "operations with 0-2 cancellable tasks (seeded random schedules for 4-5 and beyond the cap), and after every action store "
+    "operations with 0-2 cancellable tasks and 0-2 tasks that an edit_state body creates from inside its block (real "
+    "loop.create_task in the creator's task context, so the child inherits its contextvars) (seeded random schedules for 4-5 "
+    "and beyond the cap), and after every action store "
     "content, lock holder, waiter FIFO, per-task position (incl. pending cancellation: Ic / Wc / Wm / Bkc, ended: D / X / A) and "
     "log are diffed against the model driver. Monitors (model-independent): final state is one of the serial outcomes, computed "
-    "on the real store, of the operations that took effect; both backends reach the same set of final states; snapshots taken "
+    "on the real store, of the operations that took effect (a created task's operation is one more operation and cannot "
+    "precede the block that creates it); both backends reach the same set of final states; snapshots taken "
     "mid-schedule keep their top-level mapping; no task is left stuck (a cancelled waiter must not block the lock)."
 )
 LEVEL_TEXT = "proof (Lean 4) of the model + per-action correspondence with both real stores under a scripted scheduler + direct monitors"
@@ -70,6 +83,10 @@ ASSUMPTIONS = [
     "store methods contain no await other than the lock acquisition and the user's awaits inside an edit_state body (true of "
     "both stores: the SQLite store does blocking sqlite3 calls inside coroutines); the per-action correspondence would expose "
     "an additional suspension point as an extra section",
+    "a task is created at the beginning of a chunk of the creator's edit_state body (after the await that ends the previous "
+    "chunk), by create_task, i.e. with a copy of the creator's context; tasks created outside a block are the initial tasks; "
+    "task groups / gather inside a block are create_task plus waiting, the waiting is not modelled (a block that awaits its "
+    "own child's store operation dead-locks by design of the non re-entrant lock)",
     "one process, one store object per run: SqliteStateStore's lock is per object; two store objects (or processes) on the same "
     "run_id are outside the property as stated ('steps update the same run's state store')",
     "readers (get / get_state) take part only as snapshot probes of the monitors; C20 is about the final state",
@@ -110,7 +127,14 @@ class ConcRun:
         self.ended: list[str | None] = [None] * n  # "A": CancelledError left an open edit body, "X": elsewhere
         self.log: list[int] = []
         self.snaps: list[tuple[Any, dict, int]] = []
-        self.tasks = [self.loop.create_task(self._task(i, op)) for i, op in enumerate(self.tasks_spec)]
+        # tasks created by tasks: child -> (creator, chunk of the creator's edit_state body that creates it)
+        self.spawn = spawn_map(sc)
+        self.children: dict[tuple[int, int], list[int]] = {}
+        for c in sorted(self.spawn):
+            if c < n and self.spawn[c][0] != c:
+                self.children.setdefault(self.spawn[c], []).append(c)
+        self.tasks: list[Any] = [None if i in self.spawn else self.loop.create_task(self._task(i, op))
+                                 for i, op in enumerate(self.tasks_spec)]
         self.steps = 0
 
     async def _task(self, i: int, op: list) -> None:
@@ -132,6 +156,10 @@ class ConcRun:
                     for j, ch in enumerate(chunks):
                         if j > 0:
                             await asyncio.sleep(0)  # the body awaits between chunks
+                        for c in self.children.get((i, j), ()):
+                            # `asyncio.create_task(...)` inside the open block: the new task starts with a copy of
+                            # this task's context, as any task created inside the `async with` does
+                            self.tasks[c] = self.loop.create_task(self._task(c, self.tasks_spec[c]))
                         for m in ch:
                             S.apply_mut(state, m)
                         self.chunk[i] = j + 1
@@ -147,10 +175,10 @@ class ConcRun:
             self.inbody[i] = False
 
     def enabled(self) -> list[int]:
-        return [i for i, t in enumerate(self.tasks) if not t.done() and self.loop.has_ready(t)]
+        return [i for i, t in enumerate(self.tasks) if t is not None and not t.done() and self.loop.has_ready(t)]
 
     def can_cancel(self, i: int) -> bool:
-        return not self.tasks[i].done() and not self.creq[i]
+        return self.tasks[i] is not None and not self.tasks[i].done() and not self.creq[i]
 
     def cancel(self, i: int) -> None:
         """`Task.cancel()` from outside (step timeout, run cancellation): a request only; the task sees the
@@ -161,8 +189,10 @@ class ConcRun:
 
     def status(self, i: int) -> str:
         """D completed (also: raised), X cancelled before it touched the store, A cancelled inside its edit body,
-        - unfinished"""
+        - unfinished, U not created (yet)"""
         t = self.tasks[i]
+        if t is None:
+            return "U"
         if not t.done():
             return "-"
         if t.cancelled():
@@ -170,7 +200,10 @@ class ConcRun:
         return "D"
 
     def all_done(self) -> bool:
-        return all(t.done() for t in self.tasks)
+        return all(t is None or t.done() for t in self.tasks)
+
+    def unfinished(self) -> list[int]:
+        return [i for i, t in enumerate(self.tasks) if t is not None and not t.done()]
 
     def step(self, i: int) -> None:
         self.loop.run_one(self.tasks[i])
@@ -207,7 +240,7 @@ class ConcRun:
         waiters = list(getattr(lock, "_waiters", None) or [])
         q = []
         for fut in waiters:
-            owner = [i for i, t in enumerate(self.tasks) if getattr(t, "_fut_waiter", None) is fut]
+            owner = [i for i, t in enumerate(self.tasks) if t is not None and getattr(t, "_fut_waiter", None) is fut]
             q.append(str(owner[0]) if owner else "?")
         holder = "-"
         if lock.locked():
@@ -216,7 +249,9 @@ class ConcRun:
         pcs = []
         for i, t in enumerate(self.tasks):
             c = "c" if self.creq[i] else ""
-            if t.done():
+            if t is None:
+                pcs.append("U")
+            elif t.done():
                 pcs.append(self.status(i))
             elif not self.started[i]:
                 pcs.append("I" + c)
@@ -249,33 +284,49 @@ class ConcRun:
         return None
 
     def close(self) -> None:
-        for t in self.tasks:
-            if not t.done():
-                t.cancel()
         for _ in range(1000):
-            live = [t for t in self.tasks if not t.done() and self.loop.has_ready(t)]
+            for t in self.tasks:
+                if t is not None and not t.done():
+                    t.cancel()
+            live = [t for t in self.tasks if t is not None and not t.done() and self.loop.has_ready(t)]
             if not live:
                 break
             self.loop.run_one(live[0])
         for t in self.tasks:
-            if t.done() and not t.cancelled():
+            if t is not None and t.done() and not t.cancelled():
                 t.exception()
         self.loop.discard_all()
         self.loop.close()
 
 
+def spawn_map(sc: dict) -> dict[int, tuple[int, int]]:
+    """`sc["spawn"]` = [[child, creator, chunk], ...]: task `child` does not exist at the start; it is created
+    (`create_task`) at the beginning of chunk `chunk` of the edit_state body of task `creator`, inside the open
+    block.  The first entry of a child counts."""
+    res: dict[int, tuple[int, int]] = {}
+    for e in sc.get("spawn") or []:
+        if isinstance(e, (list, tuple)) and len(e) == 3 and all(isinstance(x, int) and not isinstance(x, bool) and x >= 0 for x in e):
+            res.setdefault(e[0], (e[1], e[2]))
+    return res
+
+
 def driver_prefix(S: Any, backend: str, sc: dict) -> list[str]:
     ini = "-" if sc.get("init") is None else S.enc(sc["init"])
-    return [f"cinit|{backend}|{sc['kind']}|{S.schema_enc()}|{ini}"] + [S.cop_line(op) for op in sc["tasks"]]
+    return [f"cinit|{backend}|{sc['kind']}|{S.schema_enc()}|{ini}"] + [S.cop_line(op) for op in sc["tasks"]] \
+        + [f"cspawn|{c}|{p}|{k}" for c, (p, k) in spawn_map(sc).items()]
 
 
 def serial_outcomes(S: Any, sqlenv: Any, backend: str, sc: dict, eff: dict[int, list] | None = None) -> dict[str, list[int]]:
     """final state of every serial order, on the real store; `eff`: the tasks that count and the operation each
-    counts with (default: all tasks, their own operation)"""
+    counts with (default: all tasks, their own operation).  A task that an edit_state block creates cannot come
+    before that block in a serial execution (the block is one operation, and the task does not exist before it)"""
     res: dict[str, list[int]] = {}
     if eff is None:
         eff = dict(enumerate(sc["tasks"]))
+    created_by = {c: p for c, (p, _k) in spawn_map(sc).items() if c in eff and p in eff and p != c}
     for order in itertools.permutations(sorted(eff)):
+        if any(order.index(p) > order.index(c) for c, p in created_by.items()):
+            continue
         store = S.make_mem(sc["kind"]) if backend == "mem" else sqlenv.store(sc["kind"])
         if sc.get("init") is not None:
             S.drive(store.set_state(S.make_instance(sc["kind"], "same", sc["init"])))
@@ -339,6 +390,7 @@ class Explorer:
         n = len(sc["tasks"])
         self.cancellable = [t for t in sc.get("cancel") or [] if isinstance(t, int) and 0 <= t < n]
         self.raises = scenario_raises(sc)
+        self.spawned = sorted(c for c in spawn_map(sc) if c < n)
 
     def _flag(self, sig: str, what: str, schedule: list[int]) -> None:
         if any(v.signature == sig for v in self.viol):
@@ -399,9 +451,15 @@ class Explorer:
             self.out.evaluations += len(sched)
             cls = "dict" if self.sc["kind"] == "dict" else "typed"
             after = "_after_cancel" if any(a < 0 for a in sched) else ""
+            for c in self.spawned:
+                self.out.count("spawned_task:" + {"U": "never_created", "D": "completed", "X": "cancelled", "A": "aborted"}
+                               .get(run.status(c), "unfinished"))
+            if any(run.status(c) in ("D", "A") for c in self.spawned):
+                # the operation of a task created inside an open edit_state block is among those that took effect
+                after += "_with_spawned_task"
             if not run.all_done():
                 self._flag(f"C20/stuck{after}:{self.backend}:{op_kinds(self.sc)}",
-                           f"no task can run but tasks {[i for i, t in enumerate(run.tasks) if not t.done()]} are unfinished "
+                           f"no task can run but tasks {run.unfinished()} are unfinished "
                            f"after schedule {fmt_sched(sched)} (tasks {self.sc['tasks']!r})", sched)
                 return sched
             final = run.final_canon()
@@ -411,12 +469,14 @@ class Explorer:
             if key not in self.serial:
                 self.serial[key] = serial_outcomes(S, self.sqlenv, self.backend, self.sc, eff)
             serial = self.serial[key]
-            if after:
+            if any(a < 0 for a in sched):
                 self.out.count("cancelled_runs:completed=%d/%d" % (sum(run.status(i) == "D" for i in range(len(run.tasks))), len(run.tasks)))
             if final not in serial:
                 counted = {i: (run.status(i), eff.get(i)) for i in range(len(run.tasks))}
                 self._flag(f"C20/no_serial_order{after}:{self.backend}:{op_kinds(self.sc)}",
-                           f"{self.backend} store, tasks {self.sc['tasks']!r}, init {self.sc.get('init')!r}: schedule "
+                           f"{self.backend} store, tasks {self.sc['tasks']!r}, init {self.sc.get('init')!r}"
+                           + (f", created inside an open edit_state block [task, creator, chunk]: {self.sc.get('spawn')!r}"
+                              if self.spawned else "") + ": schedule "
                            f"{fmt_sched(sched)} ends in {final!r}; the serial orders of the operations that took effect "
                            f"{counted!r} give {sorted(serial)!r}", sched)
             dmg = run.snapshot_damage()
@@ -524,7 +584,36 @@ def gen_task(S: Any, rng: Any, kind: str) -> list:
     return ["clear"]
 
 
-def gen_scenario(S: Any, rng: Any, n_tasks: int, cancels: bool = False) -> dict:
+def add_spawns(S: Any, rng: Any, sc: dict) -> None:
+    """turn 1-2 tasks into tasks that an edit_state body creates (`create_task` inside the open block, at the start
+    of one of its chunks); creators have smaller numbers than what they create, so chains (a created task that
+    itself creates one) occur and cycles do not.  Most created tasks are plain writers (`set` / `set_state` /
+    `clear`) aimed at a key that a multi-chunk block works on: the conflict C20 is about"""
+    tasks, kind = sc["tasks"], sc["kind"]
+    n = len(tasks)
+    lv = S.kind_level(kind)
+    spawn: list[list[int]] = []
+    for c in rng.sample(range(1, n), min(n - 1, 1 if rng.random() < 0.7 else 2)):
+        creators = [p for p in range(c) if tasks[p][0] == "edit"]
+        if not creators:
+            continue
+        p = rng.choice(creators)
+        k = rng.randrange(len(tasks[p][1] or [[]]))
+        spawn.append([c, p, k])
+        x = rng.random()
+        if x < 0.6:
+            keys = [m[1] for t in tasks if t[0] == "edit" and len(t[1]) > 1 for ch in t[1] for m in ch if len(m) > 1]
+            if keys:
+                key = rng.choice(keys)
+                val = rng.choice([0, 5, 10, "s", [7]]) if lv is None else S.gen_field_value(rng, key, 1)
+                tasks[c] = ["set", key, val]
+        elif x < 0.75 and tasks[c][0] == "edit":
+            tasks[c] = gen_task(S, rng, kind)
+    if spawn:
+        sc["spawn"] = sorted(spawn)
+
+
+def gen_scenario(S: Any, rng: Any, n_tasks: int, cancels: bool = False, spawns: bool = False) -> dict:
     kind = rng.choice(S.KINDS)
     init = None if rng.random() < 0.25 else S.gen_state_data(rng, kind)
     if kind == "dict" and init is not None:
@@ -533,6 +622,8 @@ def gen_scenario(S: Any, rng: Any, n_tasks: int, cancels: bool = False) -> dict:
     if not any(t[0] == "edit" and len(t[1]) > 1 for t in tasks):
         tasks[0] = ["edit", [[["I", "x" if kind == "dict" else "cnt", 1]], [["I", "x" if kind == "dict" else "a", 2]]]]
     sc = {"kind": kind, "init": init, "tasks": tasks}
+    if spawns:
+        add_spawns(S, rng, sc)
     if cancels:
         # 1-2 tasks that the scheduler may cancel at any point (not started / queued on the lock / inside the body)
         k = 1 if n_tasks < 3 or rng.random() < 0.6 else 2
@@ -548,8 +639,9 @@ def run(env: Env) -> Outcome:
 
     out = Outcome()
     out.rule = ("per action (section of a task / Task.cancel()): driver(Sys mem/sql) == observed (store content, lock holder, waiter "
-                "FIFO, task positions incl. pending cancellations, log); monitors: final state of every interleaving is a serial "
-                "outcome, on the real store, of the operations that took effect (all of them without cancellation); both backends "
+                "FIFO, task positions incl. pending cancellations and tasks not created yet, log); monitors: final state of every "
+                "interleaving is a serial outcome, on the real store, of the operations that took effect (all of them without "
+                "cancellation; a task created inside an edit_state block after that block); both backends "
                 "reach the same set of final states; mid-run snapshots keep their top level; nothing is stuck")
     sqlenv = S.SqlEnv()
     explorers: list[tuple[str, Explorer]] = []
@@ -585,6 +677,15 @@ def run(env: Env) -> Outcome:
             scenarios.append(("gen3c", gen_scenario(S, env.rng, 3, cancels=True), "exhaustive"))
         for _ in range(env.budget(1, 15)):
             scenarios.append(("gen45c", gen_scenario(S, env.rng, env.rng.choice([4, 5]), cancels=True), "random"))
+        # the same with tasks created inside an open edit_state block (a creator is task 0 or a later edit)
+        for _ in range(env.budget(4, 40)):
+            scenarios.append(("gen2s", gen_scenario(S, env.rng, 2, spawns=True), "exhaustive"))
+        for _ in range(env.budget(5, 50)):
+            scenarios.append(("gen3s", gen_scenario(S, env.rng, 3, spawns=True), "exhaustive"))
+        for _ in range(env.budget(1, 15)):
+            scenarios.append(("gen45s", gen_scenario(S, env.rng, env.rng.choice([4, 5]), spawns=True), "random"))
+        for _ in range(env.budget(2, 25)):
+            scenarios.append(("gen3sc", gen_scenario(S, env.rng, 3, cancels=True, spawns=True), "exhaustive"))
         cap = 60 if env.tier == "quick" else 400
 
         for tag, sc, mode in scenarios:
@@ -614,7 +715,10 @@ def run(env: Env) -> Outcome:
                 out.count("task:" + op[0])
             for t in (sc.get("cancel") or []) if mode != "fixed" else []:
                 out.count("cancellable:" + sc["tasks"][t][0])
-            out.nontrivial((sc["kind"], sc["tasks"], sc.get("init")))
+            for c, (p, k) in spawn_map(sc).items():
+                if c < len(sc["tasks"]) and p < len(sc["tasks"]):
+                    out.count(f"created_in_block:{sc['tasks'][c][0]}@chunk{min(k, 3)}of{min(len(sc['tasks'][p][1] or [[]]), 3) if sc['tasks'][p][0] == 'edit' else 0}")
+            out.nontrivial((sc["kind"], sc["tasks"], sc.get("init"), sc.get("spawn")))
             # (a multi-chunk edit cancelled inside its body leaves its finished chunks in memory, nothing in SQLite)
             abortable = any(sc["tasks"][t][0] == "edit" and len(sc["tasks"][t][1]) > 1 for t in per_backend["mem"].cancellable) \
                 if "mem" in per_backend else False
@@ -649,11 +753,16 @@ def run(env: Env) -> Outcome:
         extra = [(f"cinit|mem|dict|{S.schema_enc()}|-", "ok"), ("ctask|clear", "ok"), ("ccancel|", "bad-op"), ("ccancel|x", "bad-op"),
                  ("ccancel|0|1", "bad-op"), ("crun|-1", "bad-op"), ("ccancel|7", "disabled"), ("crun|7", "disabled"),
                  ("ccancel|0", "ok state dict o0 holder=- queue= pcs=Ic log="), ("ccancel|0", "disabled"),
-                 ("crun|0", "ok state dict o0 holder=- queue= pcs=X log="), ("ccancel|0", "disabled"), ("crun|0", "disabled")]
+                 ("crun|0", "ok state dict o0 holder=- queue= pcs=X log="), ("ccancel|0", "disabled"), ("crun|0", "disabled"),
+                 # a task that has not been created cannot run or be cancelled; a second creator for it is refused
+                 (f"cinit|mem|dict|{S.schema_enc()}|-", "ok"), ("ctask|edit|a1 a0", "ok"), ("ctask|clear", "ok"),
+                 ("cspawn|1|0", "bad-op"), ("cspawn|1|x|0", "bad-op"), ("cspawn|1|0|0", "ok"), ("cspawn|1|0|1", "bad-op"),
+                 ("crun|1", "disabled"), ("ccancel|1", "disabled"),
+                 ("crun|0", "ok state dict o0 holder=- queue= pcs=D,I log=0"), ("ccancel|1", "ok state dict o0 holder=- queue= pcs=D,Ic log=0")]
         lines += [l for l, _ in extra]
         impl += [e for _, e in extra]
         owner += [-1] * len(extra)
-        out.count("malformed_or_disabled_actions", len(extra) - 2)
+        out.count("malformed_or_disabled_actions", len(extra) - 9)
         model_out = Driver(MODEL).run(lines) if lines else []
         seen_div = 0
         for i, (mo, io) in enumerate(zip(model_out, impl)):
